@@ -20,7 +20,7 @@
 (***************************************************************************)
 EXTENDS Interp, Sem, Progs, Json, TLC
 
-CONSTANTS MaxSize, MaxDepth, MaxRows, EmitReplay
+CONSTANTS MaxSize, MaxDepth, MaxRows, EmitReplay, Shard, NShards, SmallAlphabet
 
 N(k) == [k |-> "num", v |-> WFromNat(k)]
 Id(s) == [k |-> "id", name |-> s]
@@ -47,11 +47,18 @@ Lets == { [k |-> "let", name |-> "a", e |-> N(0)],
           [k |-> "let", name |-> "b", e |-> Id("i")] }
 Repeats == { [k |-> "loop", var |-> "n", max |-> m,
               body |-> <<Row(<<Ex(Id("n")), Ex(Id("i")), XE>>)>>] : m \in {N(0), N(2), Id("a")} }
-Atoms == Rows \cup Lets \cup Repeats \cup {[k |-> "reset"]}
-Loops == {[var |-> "i", max |-> m] : m \in {Neg(N(1)), N(0), N(2), Id("a")}}
-           \cup {[var |-> "a", max |-> N(2)]}
+AtomsFull == Rows \cup Lets \cup Repeats \cup {[k |-> "reset"]}
+\* a reduced alphabet lets the enumeration reach one statement more (TLC builds the initial states on one thread)
+AtomsSmall == { Row(<<Ex(Id("a")), Ex(Id("i")), XE>>), Row(<<Ex(Id("n")), N(1), Ex(Bin("+", Id("a"), Id("b")))>>),
+                [k |-> "let", name |-> "a", e |-> Bin("+", Id("a"), N(1))], [k |-> "let", name |-> "b", e |-> Id("i")],
+                [k |-> "loop", var |-> "n", max |-> Id("a"), body |-> <<Row(<<Ex(Id("n")), Ex(Id("i")), XE>>)>>] }
+Atoms == IF SmallAlphabet THEN AtomsSmall ELSE AtomsFull
+LoopsFull == {[var |-> "i", max |-> m] : m \in {Neg(N(1)), N(0), N(2), Id("a")}}
+               \cup {[var |-> "a", max |-> N(2)]}
 \* (a - 2 is negative, zero or positive: the loop runs as long as the condition is NON-ZERO)
-Whiles == {Bin("<", Id("a"), N(2)), Bin("<", Id("i"), N(1)), N(0), Bin("-", Id("a"), N(2))}
+WhilesFull == {Bin("<", Id("a"), N(2)), Bin("<", Id("i"), N(1)), N(0), Bin("-", Id("a"), N(2))}
+Loops == IF SmallAlphabet THEN {[var |-> "i", max |-> N(0)], [var |-> "i", max |-> Id("a")], [var |-> "a", max |-> N(2)]} ELSE LoopsFull
+Whiles == IF SmallAlphabet THEN {Bin("<", Id("a"), N(2)), Bin("-", Id("a"), N(2))} ELSE WhilesFull
 
 \* a `let` must not assign the counter of the loop whose frame it runs in (DESIGN 6.1)
 RECURSIVE NoCounterLet(_, _)
@@ -83,11 +90,24 @@ Candidates ==
   {Renumber(p) : p \in {p \in ProgsUpTo(MaxSize, MaxDepth, Atoms, Loops, Whiles) :
                           HasRow(p) /\ NoCounterLet(p, "")}}
 
+\* TLC builds the initial states on one thread; for the larger bounds the programs are split into NShards classes by
+\* a structural weight and one TLC process explores each class
+RECURSIVE Weight(_)
+Weight(stmts) ==
+  IF stmts = <<>> THEN 0
+  ELSE LET s == stmts[1]
+           w == CASE s.k = "row" -> 1 + Len(s.entries)
+                  [] s.k = "let" -> 5
+                  [] s.k = "reset" -> 7
+                  [] s.k = "loop" -> 11 + 3 * Weight(s.body)
+                  [] s.k = "while" -> 13 + 3 * Weight(s.body)
+       IN  (w + 2 * Weight(Tail(stmts))) % 9973
+
 VARIABLES prog, it, hist, calls, phase
 vars == <<prog, it, hist, calls, phase>>
 
 Init ==
-  /\ prog \in {p \in Candidates : Terminating(p)}
+  /\ prog \in {p \in Candidates : Weight(p) % NShards = Shard /\ Terminating(p)}
   /\ LET fin == CtorFinish(Ct(prog), Answer(0))
      IN  /\ fin.res = "ok"
          /\ it = fin.it
